@@ -22,7 +22,7 @@ import z3
 
 from . import values as V
 from .extract import ExtractionError, Repo
-from .interp import BoundMethod, Ctx, ForallP, Interp, ModelObject, Obj, PyFunc, ReturnSignal
+from .interp import BoundMethod, BreakSignal, Ctx, ForallP, Interp, ModelObject, Obj, PyFunc, ReturnSignal
 from .solve import Verdict, check_sat, discharge, reset_ack
 from .values import Arr, Filtered, PathInfeasible, PyRaise, Unsupported
 
@@ -341,12 +341,14 @@ def _run_unit(spec: Spec, repo: Repo | None = None, timeout_s=20.0, want_smt2=Fa
                     note = f"SLICE of {spec.func}: only {desc} is verified; the statements before it are replaced by the contract's slice_env"
                     if note not in res.notes:
                         res.notes.append(note)
-                    env = dict(spec.slice_env(cx, a))
+                    env = spec.slice_env(cx, a)
                     try:
                         interp.exec_block(stmts, env, mod)
                         r = None
                     except ReturnSignal as rs:
                         r = rs.value
+                    except BreakSignal:
+                        r = "<break>"  # a loop-body slice left the loop
                 else:
                     r = interp.run_function(pf, args, kwargs)
                 outcome = ("return", r)
